@@ -100,3 +100,49 @@ package fasthttp
 //@   end
 //@   ensures[pooled-reader-is-rewound] err == nil ==> r.r == r.f
 //@   ensures[reader-count-released-once] released == 1
+
+// C25: the FS cache lock. The cache maps, the pending list, the closed flag and every cached file's reader count are
+// only assigned with cacheLock held (the ...Nolock helpers are entered with it held and are only called that way).
+//@ monitor inMemoryCacheManager cacheLock
+//@   property C25
+//@   protects cache cacheBrotli cacheGzip cacheZstd pendingFiles closed fsFile.readersCount
+
+//@ func inMemoryCacheManager.addFileToReleaseNolock results r
+//@   property C25
+//@   mode skeleton
+//@   holds cm.cacheLock
+//@   ensures[busy-file-is-not-released] ff.readersCount > 0 ==> len(r) == len(filesToRelease)
+//@   ensures[idle-file-is-released-once] ff.readersCount <= 0 ==> len(r) == len(filesToRelease) + 1
+
+//@ func inMemoryCacheManager.removePendingFileNolock
+//@   property C25
+//@   mode skeleton
+//@   holds cm.cacheLock
+
+//@ func inMemoryCacheManager.collectAllFilesToReleaseNolock
+//@   property C25
+//@   mode skeleton
+//@   holds cm.cacheLock
+
+//@ func inMemoryCacheManager.cleanCacheNolock
+//@   property C25
+//@   mode skeleton
+//@   holds cm.cacheLock
+
+//@ func inMemoryCacheManager.collectCacheFilesToReleaseNolock
+//@   property C25
+//@   mode skeleton
+//@   holds cm.cacheLock
+
+// DecReadersCount: the file is released by this call only when the manager is closed and the last reader left,
+// after it was taken off the pending list, and outside the lock.
+//@ func inMemoryCacheManager.DecReadersCount
+//@   property C25
+//@   mode skeleton
+//@   nooverflow
+//@   ghost released int = 0
+//@   on call fsFile.Release:
+//@     requires[only-last-reader-of-a-closed-cache] release && !held(cm.cacheLock)
+//@     effect released = released + 1
+//@   end
+//@   ensures[released-at-most-once] released <= 1 && (released == 1) == release
